@@ -456,6 +456,22 @@ def smiles_roundtrip(c):
         res["status"] = "NOT-ISOMORPHIC"
         res["reread"] = ct.graph_py(g2)
         return res
+    # the graph read from a SMILES belongs to the caller: edit it in place, read the same text again - the second
+    # reading must again be the molecule the text describes (no result object may be shared between calls)
+    for n in list(g2.nodes)[:1]:
+        g2.nodes[n]["symbol"] = "Xx"
+    for u, v in list(g2.edges)[:1]:
+        g2[u][v]["bond"] = 7
+    g2.add_node(max(g2.nodes) + 1 if len(g2) else 0, symbol="Xx")
+    try:
+        g2b = smiles_to_graph(smi)
+        fresh = g2b is not g2 and nx.is_isomorphic(g, g2b, node_match=_node_match(with_aam),
+                                                   edge_match=lambda a, b: a["bond"] == b["bond"])
+    except Exception:
+        fresh = False
+    if not fresh:
+        res["status"] = "REREAD-NOT-FRESH"
+        return res
     # history on the SAME graph object: edit it in place WITHOUT changing node or edge counts (isovalent element
     # swap on a non-aromatic atom, and/or two map numbers exchanged) and export again - the second SMILES must
     # describe the edited graph (nothing memoised on the graph, in the module or keyed by size may survive the edit)
@@ -731,6 +747,9 @@ def _py_invariants(c, out):
             msgs.append("SMILES round trip on one graph object: %r exported as %r, then edited in place (%s) and exported again "
                         "as %r, which re-reads to a graph that is not isomorphic to the edited graph"
                         % (c["smiles"], out[1]["written"], "; ".join(out[1]["edits"]), out[1]["written2"]))
+        elif st == "REREAD-NOT-FRESH":
+            msgs.append("smiles_to_graph(%r) was called, its result edited in place by the caller, and called again with the same text: "
+                        "the second result is not (a fresh graph of) the molecule the text describes" % out[1]["written"])
         elif st == "WRITE-FAILED":
             msgs.append("graph_to_smiles raised %s on the graph of the RDKit-valid molecule %r" % (out[1]["error"], c["smiles"]))
         elif st == "aam-not-ignored":
